@@ -81,6 +81,21 @@ func CompareWeighted(real *graph.WeightedAuthorizationModelGraph, g *Graph, stru
 	var walk func(n *Node, realID string)
 	checkNode := func(n *Node, realID string) {
 		rn := rnodes[realID]
+		// the accessor methods agree with the maps they read
+		if byID, ok := real.GetNodeByID(realID); !ok || byID != rn {
+			add("structure", "GetNodeByID(%s) does not return the node of GetNodes()", n.ID)
+		}
+		if es, ok := real.GetEdgesFromNode(rn); ok != (len(redges[realID]) > 0 || redges[realID] != nil) || len(es) != len(redges[realID]) {
+			add("structure", "GetEdgesFromNode(%s) returns %d edges, GetEdges() has %d", n.ID, len(es), len(redges[realID]))
+		}
+		for k, w := range rn.GetWeights() {
+			if got, ok := rn.GetWeight(k); !ok || got != w {
+				add("weights", "node %s: GetWeight(%s) = %d,%v but GetWeights() has %d", n.ID, k, got, ok, w)
+			}
+		}
+		if _, ok := rn.GetWeight("no such type"); ok {
+			add("weights", "node %s: GetWeight of an unknown type answers ok", n.ID)
+		}
 		if rn.GetNodeType() != nodeTypeOf(n.Kind) {
 			add("structure", "node %s: node type %d, want %d", n.ID, rn.GetNodeType(), nodeTypeOf(n.Kind))
 		}
@@ -182,6 +197,11 @@ func CompareWeighted(real *graph.WeightedAuthorizationModelGraph, g *Graph, stru
 			for k := range re.GetWeights() {
 				if strings.HasPrefix(k, "R#") {
 					add("weights", "edge %s -> %s: cycle placeholder %q visible", n.ID, fe.To.ID, k)
+				}
+			}
+			for k, w := range re.GetWeights() {
+				if got, ok := re.GetWeight(k); !ok || got != w {
+					add("weights", "edge %s -> %s: GetWeight(%s) = %d,%v but GetWeights() has %d", n.ID, fe.To.ID, k, got, ok, w)
 				}
 			}
 			if !sameW(re.GetWeights(), fe.Weights()) {
